@@ -330,6 +330,39 @@ def run(ctx):
             std = c.standard_topology()
             if canon_of_chain(std, leaf_id) != f or not std.topology_same(c, False) or not c.topology_same(std, True):
                 problems.append("standard_topology of %s has other groupings" % c)
+        # the class structure does not depend on what was asked of the group before: identical=True first, then the
+        # default again on the same object, and the other order on a fresh group
+        try:
+            def assign(cm):
+                return [tuple(k for k, m in enumerate(cm) if c in m) for c in chains]
+
+            first = (len(struct), assign(cmap))
+            s_id = dg.topology_structure(identical=True)
+            again = (len(dg.topology_structure()), assign(dg.get_chains_map()))
+            if again != first:
+                problems.append("classes after topology_structure(identical=True) on the same group: %s, before: %s" % (again, first))
+            dg_b = DecayGroup(chains)
+            s_id_b = dg_b.topology_structure(identical=True)
+            then_default = (len(dg_b.topology_structure()), assign(dg_b.get_chains_map()))
+            if len(s_id_b) != len(s_id) or then_default != first:
+                problems.append("fresh group, identical=True first: %d classes (same object gave %d); then default %s, expected %s" % (len(s_id_b), len(s_id), then_default, first))
+        except Exception as e:  # noqa: BLE001
+            problems.append("repeated topology_structure raises %r" % (e,))
+        # the node map between two chains of one topology does not depend on the order in which the other chain lists
+        # the daughters of a decay (a chain rebuilt from its own table lists them in table order)
+        from tf_pwa.particle import DecayChain as _DC
+
+        for c in chains:
+            try:
+                c2 = _DC.from_sorted_table(c.sorted_table())
+                m = c.topology_map(c2)
+                lost = [str(d) for d in c if d not in m]
+                imgs = list(c2)
+                wrong = [str(d) for d in c if d in m and not any(m[d] is e or m[d] == e for e in imgs)]
+                if lost or wrong:
+                    problems.append("topology_map(%s -> rebuilt from its table): decays without image %s, with a foreign image %s" % (c, lost[:3], wrong[:3]))
+            except Exception as e:  # noqa: BLE001
+                problems.append("topology_map against the rebuilt chain raises %r" % (e,))
         if problems:
             ctx.violation(key[:150], {"problems": problems[:5], "chains": [str(c) for c in chains]})
         if gi == 0:
